@@ -12,7 +12,7 @@ func init() {
 		ID:  "C02",
 		Run: runC02,
 		Decided: "the end-condition mechanics the convergence argument rests on: the Kademlia end condition looks at exactly the beta nearest peers in states heard/waiting/queried and holds only if each of them is queried (R1); starvation is `no heard and no waiting` (R2); the next peers asked are the nearest merely-heard ones, the readiness test precedes every spawn round and a terminated query spawns nothing (R3); " +
-			"the follow-up asks exactly the heard/waiting peers of the result, one worker each, is skipped and marked incomplete when the context ended or the stop function fired, counts each finished worker before any exit of its select arm and drains the rest (R4); network-size tracking and refresh-timer resets happen only for completed, uncancelled lookups, and `completed` is `end condition or starvation` (R5); the configured Resiliency, Concurrency and BucketSize reach the lookup unchanged (R7). Added after the seeded rounds: a successful return that skips the follow-up is implied by `no selected peer or stopped or cancelled` (R4).",
+			"the follow-up asks exactly the heard/waiting peers of the result, one worker each, is skipped and marked incomplete when the context ended or the stop function fired, counts each finished worker before any exit of its select arm and drains the rest (R4); network-size tracking and refresh-timer resets happen only for completed, uncancelled lookups, and `completed` is `end condition or starvation` (R5); the configured Resiliency, Concurrency and BucketSize reach the lookup unchanged (R7). Added after the seeded rounds: a successful return that skips the follow-up is implied by `no selected peer or stopped or cancelled` (R4). Round 4: a failed request is reported as unreachable, never as answered (R8, shared C01.R5).",
 		NotDecided: "convergence on any topology (a statement about runtime values: which peers exist and what they answer); optimal termination time.",
 	})
 }
